@@ -279,6 +279,7 @@ fn run_e1_property(id: &str, thorough: bool, ev: &mut Evidence, t0: Instant) {
             families::fd(4, 2, vec![(0, 0), (4, 0), (0, 6), (4, 6)], 4, "the 4 corners"),
         ];
         dense.push(families::f4border());
+        dense.push(families::fmaterial());
         if thorough {
             dense.push(families::fd(3, 3, vec![(0, 0), (5, 0), (0, 5), (5, 5)], 4, "the 4 corners"));
             dense.push(families::fd(2, 4, vec![(3, 0), (3, 4), (0, 2), (6, 2)], 4, "edge middles"));
@@ -380,6 +381,18 @@ fn run_e2_property(id: &str, thorough: bool, ev: &mut Evidence) {
     if thorough || matches!(id, "C03" | "C05" | "C06" | "C07" | "C08") {
         let r = paths::run_scripts(id, checks, paths::DISTANCE_NAME, &paths::distance_scripts(thorough));
         eprintln!("  {} : states={} transitions={} {:.1}s {} {}", r.family, r.stats.states, r.stats.transitions, r.wall_s, if r.complete { "complete" } else { "INCOMPLETE" }, r.note);
+        ev.families.push(r);
+        let r = paths::run_scripts(id, checks, paths::DRAGBACK_NAME, &paths::dragback_scripts(thorough));
+        eprintln!("  {} : states={} transitions={} {:.1}s {} {}", r.family, r.stats.states, r.stats.transitions, r.wall_s, if r.complete { "complete" } else { "INCOMPLETE" }, r.note);
+        ev.families.push(r);
+    }
+    if matches!(id, "C05" | "C06" | "C07") {
+        let (scripts, arrangements, found) = paths::collision_scripts(thorough);
+        let mut r = paths::run_scripts(id, checks, paths::COLLISION_NAME, &scripts);
+        r.stats.add("e10_collision_arrangements_enumerated", arrangements);
+        r.stats.add("e10_collision_pairs_found_all_windows", found);
+        r.stats.add("e10_collision_games_played", scripts.len() as u64);
+        eprintln!("  {} : pairs={} games={} states={} transitions={} {:.1}s {} {}", r.family, found, scripts.len(), r.stats.states, r.stats.transitions, r.wall_s, if r.complete { "complete" } else { "INCOMPLETE" }, r.note);
         ev.families.push(r);
     }
     for r in e2::run_seed_shuffles(id, checks, thorough) {
